@@ -29,6 +29,10 @@ def sum_term(t):
 
 def tolerance_of(cond):
     """-> ('tol', float) | ('exact', why) | ('unknown', why) for the condition under which ValueError is raised"""
+    # abs() / bool() around a comparison is the comparison itself (abs(True) == 1)
+    while isinstance(cond, tuple) and cond[0] == "ext" and cond[1] in ("abs", "numpy.abs", "bool", "numpy.absolute") and len(cond[2]) == 1 \
+            and isinstance(cond[2][0], tuple) and cond[2][0][0] in ("cmp", "bool"):
+        cond = cond[2][0]
     p = npred(cond, True)
     def dev_atom(a):
         # |sum - 1|
@@ -49,6 +53,13 @@ def tolerance_of(cond):
             (m, coef), = d.items()
             if len(m) == 1 and coef == 1 and dev_atom(m[0]) and c < 0:
                 return ("tol", float(-c))
+    if p[0] in (">0", ">=0"):
+        d = dict(p[1])
+        d.pop((), 0)
+        if len(d) == 1:
+            (m, coef), = d.items()
+            if len(m) == 1 and sum_term(m[0]):
+                return ("onesided", "one-sided test of the ratio sum (%s): sums on the other side of 1 are accepted" % pred_fmt(p))
     if p[0] == "atom" and p[2] is False and isinstance(p[1], tuple) and p[1][0] == "ext" and p[1][1] in ("numpy.isclose", "math.isclose", "numpy.allclose"):
         t = p[1]
         a = list(t[2])
@@ -107,7 +118,9 @@ def run(prog, rep, tier):
     else:
         r = raises[0]
         kind, val = tolerance_of(r.path[0][0])
-        if kind == "exact":
+        if kind == "onesided":
+            rep.bad("TOL.guard", fwhere(f, r.node), val)
+        elif kind == "exact":
             rep.bad("TOL.guard", fwhere(f, r.node), val + ": ratios such as [0.7, 0.2, 0.1] sum to 0.9999999999999999 and are rejected")
         elif kind == "tol":
             rep.check("TOL.guard", 1e-12 <= val <= 1e-6 * (1 + 1e-9), fwhere(f, r.node), "ValueError iff |sum(ratios) - 1| > %g" % val,
